@@ -279,7 +279,7 @@ def witness_concurrent():
     first_in.wait(5)
     t2 = threading.Thread(target=worker, args=("y",), daemon=True)
     t2.start()
-    t2.join(5)
+    t2.join(1.0)           # (with the engine's lock the second request waits here until the first is through)
     release.set()
     t1.join(5)
     leaves = sum(1 for e in m.elog if e == ("leave", 0))
